@@ -10,6 +10,7 @@ outside the modelled mutexes (race detector / stress runs are supporting evidenc
 -/
 import TurnModel.Lemmas.SkelSound
 import TurnModel.Gen.Locks
+import TurnModel.Model.LockOrder
 import TurnModel.Gen.Eff
 import TurnModel.Gen.Facts
 namespace Turn.C18
@@ -141,5 +142,33 @@ theorem addperm_vs_close :
 example : balanced (.seq (.acq 0) (.seq (.alt .ret .skip) (.rel 0))) = false := by decide
 example : balanced (.seq (.acq 0) (.seq (.alt (.seq (.rel 0) .ret) .skip) (.rel 0))) = true := by decide
 example : Gen.Locks.all.length ≥ 40 := by decide
+
+/-! ### lock order across functions
+
+`Skel.edges` walks every control-flow path of every lock skeleton (same path semantics as `chk`) and records,
+for each mutex taken — directly, or inside a statically resolved callee (`Gen.Locks.acquires`, the transitive
+summary the translator derives from the call graph) — a pair (mutex already held, mutex taken).  Mutexes are
+identified per struct field (all instances of one type together; read and write side of one RWMutex together),
+which over-approximates the instance-level order. -/
+
+/-- the lock-order graph regenerated from the current source -/
+def lockOrder : List (Nat × Nat) := allEdges Gen.Locks.mutexOf Gen.Locks.acquires Gen.Locks.all
+
+/-- every skeleton is analysed to the end (no path is cut short by a fault) -/
+theorem lock_order_total :
+    Gen.Locks.all.all (fun p => (edges Gen.Locks.mutexOf Gen.Locks.acquires p.2 ⟨[], []⟩).isSome) = true := by decide
+
+/-- **lock_order_acyclic**: no mutex is taken while it is already held, and there is no cycle
+    "A held while taking B, …, Z held while taking A" among the module's mutexes — no lock-order lock-up. -/
+theorem lock_order_acyclic : acyclic 6 lockOrder = true := by decide
+
+/-- the graph is not empty: nested acquisition does occur and is analysed (Manager.lock → channelBindingsLock → permissionsLock …) -/
+example : lockOrder.length ≥ 10 := by decide
+/-- a re-acquisition and a two-lock cycle are both rejected by the same check -/
+example : acyclic 6 (allEdges [(0, 0), (1, 0)] [] [("f", .seq (.acq 0) (.seq (.acq 1) (.seq (.rel 1) (.rel 0))))]) = false := by decide
+example : acyclic 6 (allEdges [] [(7, [0])] [("f", .seq (.acq 0) (.seq (.acq 1) (.seq (.rel 1) (.rel 0)))),
+    ("g", .seq (.acq 1) (.seq (.call 7) (.rel 1)))]) = false := by decide
+example : acyclic 6 (allEdges [] [(7, [2])] [("f", .seq (.acq 0) (.seq (.acq 1) (.seq (.rel 1) (.rel 0)))),
+    ("g", .seq (.acq 1) (.seq (.call 7) (.rel 1)))]) = true := by decide
 
 end Turn.C18
